@@ -213,6 +213,17 @@ def check_config(block, exp):
             dedup = list(dict.fromkeys(keys))
             if dedup != list(raw_idx):
                 return "C02/views/settings_map-keys", list(raw_idx), keys
+            # the enum-indexed view describes the same settings as the name-indexed view: entry for entry the
+            # key's enum name (synthetic name for unknown indices) is the name-view key (or its alias) and the
+            # values are equal
+            nm = maps[("name", pretty, parse)]
+            if len(m) != len(nm):
+                return "C02/views/enum-vs-name", [str(k) for k in nm], [repr(k) for k in m]
+            for (ek, ev), (nk, nv) in zip(m.items(), nm.items()):
+                ename = getattr(ek, "name", None) or f"BeaconSetting_{getattr(ek, 'value', ek)}"
+                same = ename == nk or any(ename in acc and nk in acc for acc in (tlv.acceptable_names(getattr(ek, "value", ek), t) for t in (0, 1, 2, 3)))
+                if not same or ev != nv:
+                    return "C02/views/enum-vs-name", {str(nk): _v(nv)}, {repr(ek): _v(ev), "variant": [pretty, parse]}
             continue
         for k in m:
             a, b = m[k], ref[k]
